@@ -40,12 +40,20 @@ TRUSTED_BASE = [
     "tools/translate/gen_c06.py (Python ast -> Lean tables: latin_enc.ENCODING, glyphlist.glyphname2unicode, "
     "fontmetrics.FONT_METRICS widths + aliases) - every table is also dumped from the Lean driver and compared "
     "with the Python objects on every run",
+    "tools/translate/gen_c06.py code part (Gen/FontCode.lean): constants and tests of name2unicode, "
+    "raise_key_error_for_invalid_unicode, PDFFont.__init__, handle_undefined_char, add_cid2unichr, the if/elif chain of "
+    "get_font, and the check that PDFTrueTypeFont adds nothing to PDFType1Font",
+    "lean/PdfVerif/Model/Type1Header.lean on top of the C14/C01 tokeniser model (Lexer.specLex = buffered tokeniser, "
+    "proved in C14) - tied by whole fonts and by direct Type1FontHeaderParser runs on generated and damaged headers",
     "hand model lean/PdfVerif/Model/SimpleFont.lean of encodingdb.name2unicode, EncodingDB.get_encoding, "
     "PDFSimpleFont/PDFType1Font/PDFType3Font construction, to_unichr, char_width, FileUnicodeMap.add_cid2unichr, "
     "bfchar/bfrange expansion, UTF-16BE 'ignore' decoding, Type1FontHeaderParser at the level of its `put` pairs "
     "(correspondence-checked through real PDF files)",
     "the harness' PDF/CMap/Type 1 header writers (tools/harness/pdfwriter.py + this file)",
     "exact rationals stand for Python floats (advance compared with relative tolerance 1e-9)",
+    "independent data validation: latin_enc.ENCODING against Python's cp1252 / mac_roman / latin-1 / ascii codecs "
+    "(documented Annex D footnote exceptions), glyph list against unicodedata (letters, accented letters via NFC, "
+    "Greek, digits) and against the uniXXXX rule; this found the wrong WinAnsi 173 row of the pinned tree",
     "tools/harness/props/c06_refdata.json: reference copies of the Adobe Glyph List, the Annex D encoding table and "
     "the core-14 AFM widths (snapshot of the pinned tree) - an edit of a data table is reported against them",
 ]
@@ -54,8 +62,11 @@ ASSUMPTIONS = [
     "Encoding a name or a dictionary, Differences of integers/names/other direct objects, Widths of numbers, "
     "ToUnicode with bfchar/bfrange sections over 1-2 byte source codes and hex-string (or array of hex-string) "
     "targets, Type3 with FontBBox and a 6-number FontMatrix",
-    "embedded Type 1 programs are synthetic clear-text headers (`dup code /name put`, optional .notdef loop); "
-    "eexec parts, CFF and TrueType programs are not modelled",
+    "embedded Type 1 programs are synthetic clear-text headers, read from their BYTES by model and implementation "
+    "(dup/no dup, puts inside procedures, boolean / real keys, strings, comments, #xx escapes, all white-space forms, "
+    "other PostScript constructs in between, Length1 exact / beyond / cutting a token, damaged headers); eexec parts, "
+    "CFF and TrueType programs are not modelled; headers that are malformed on purpose are judged by the "
+    "model/implementation tie only",
     "glyph names with lower-case hexadecimal digits after uni/u (accepted by pdfminer, pinned by its unit tests, "
     "rejected by AGL) and names where only some underscore components are unknown (DESIGN section 7) are outside "
     "the judged domain; they are still part of the model/implementation tie",
@@ -80,6 +91,25 @@ STATEMENT_STATUS: Dict[str, str] = {
     "C06_width_precedence": "proved: advance = Widths entry, else standard-14 metric of the character, else "
                             "MissingWidth, times 1/1000 or FontMatrix[0] (judged cells)",
     "type3_scale": "proved: Type3 advance = (Widths entry or MissingWidth) x FontMatrix[0], no hypothesis on the text",
+    "agl_grammar_wellformed": "proved: the design's statement - on every name of the grammar name2unicode returns the "
+                              "non-empty AGL string (wellFormedName -> judgedName is a proved lemma)",
+    "tables_ok": "proved in the kernel for the REGENERATED glyph list / ENCODING rows (decide +kernel with a position "
+                 "certificate emitted by the translator); no longer a hypothesis checked by the driver",
+    "agl_grammar_pdfminer / C06_text_precedence_pdfminer / C06_width_precedence_pdfminer / modelFont_pdfminer":
+        "proved: the precedence theorems for exactly the tables and EncodingDB the driver runs, no table hypothesis left",
+    "subtype_dispatch": "proved (by evaluation of the regenerated if/elif chain of get_font): which Subtypes are simple "
+                        "fonts and which class they get",
+    "code_constants": "proved: the constants regenerated from the source (placeholder text, 1/1000, default encoding, "
+                      "surrogate/upper bounds, prefixes, group size, length bounds, separators) are those of the "
+                      "specification - an edit of one of them breaks this and the AGL proofs",
+    "C06_raw_precedence": "proved: fonts given with the BYTES of the embedded Type 1 program (tokeniser + "
+                          "Type1FontHeaderParser stack machine + literal_name decoding) - construction succeeds and "
+                          "text/advance are the specified ones whenever the header can be read",
+    "header_ignored": "proved: the FontFile bytes have no influence unless the font is non-Type3, non-standard-14 and "
+                      "has no Encoding entry",
+    "exampleHeader_puts / put_underflow_raises": "proved by kernel evaluation of the tokeniser model on concrete headers",
+    "getFont_transparent / font_cache_transparent": "proved: PDFResourceManager.get_font with or without caching returns "
+                                                    "for every request sequence exactly the freshly constructed fonts",
 }
 
 CLASSIFIERS = {
